@@ -20,6 +20,15 @@ REC_Q = ("rec", "Q", (("p", REC_P), ("k", I64), ("f", BOOL)))
 OPT_I32 = ("opt", I32)
 OPT_P = ("opt", REC_P)
 ENUM_E = ("enum", "E", (("A", I32), ("B", U8), ("C", None), ("D", REC_P)))
+U16 = ("int", 2, False)
+REC_PR = ("rec", "PR", (("b", U8), ("a", I32)))            # P with its members in the other order
+REC_PW = ("rec", "PW", (("a", I64), ("b", U16)))           # P with wider members
+REC_R2 = ("rec", "R2", (("x", I32), ("y", I32)))
+REC_R2S = ("rec", "R2s", (("y", I32), ("x", I32)))         # same member types position by position, names swapped
+REC_Q2 = ("rec", "Q2", (("r", REC_R2), ("k", I64)))
+REC_Q2S = ("rec", "Q2s", (("k", I32), ("r", REC_R2S)))
+SCASTS = [(REC_P, REC_PR), (REC_PR, REC_P), (REC_P, REC_PW), (REC_PW, REC_P), (REC_R2, REC_R2S), (REC_R2S, REC_R2),
+          (REC_Q2, REC_Q2S), (("arr", 2, REC_R2), ("arr", 2, REC_R2S)), (("arr", 2, REC_P), ("arr", 2, REC_PW))]
 PTR_P = ("ptr", True, REC_P)
 OPT_PI = ("opt", ("ptr", True, I32))
 REC_H = ("rec", "H", (("k", I32), ("p", PTR_P), ("o", OPT_PI)))      # a struct that holds pointers
@@ -608,6 +617,54 @@ class Gen:
             ss += show()
         return ss
 
+    # ---------------------------------------------------- casts between aggregates
+    def tdesc(self, t):
+        if t[0] == "int":
+            return {"k": "int", "w": t[1], "s": t[2]}
+        if t[0] == "bool":
+            return {"k": "bool"}
+        if t[0] == "arr":
+            return {"k": "arr", "t": self.tdesc(t[2])}
+        return {"k": "rec", "ns": [f for f, _ in t[2]], "ts": [self.tdesc(ft) for _, ft in t[2]]}
+
+    def lit_of(self, t):
+        if t[0] == "arr":
+            return {"e": "arr", "elem": t[2], "es": [self.lit_of(t[2]) for _ in range(t[1])]}
+        if t[0] == "rec":
+            return {"e": "rec", "ty": t[1], "fs": [{"n": fn, "x": self.lit_of(ft)} for fn, ft in t[2]]}
+        return self.expr(t, 2)
+
+    def leaves(self, e, t):
+        """(expression, type) of every scalar inside the value e of type t"""
+        if t[0] == "arr":
+            out = []
+            for k in range(t[1]):
+                out += self.leaves({"e": "idx", "a": e, "i": self.index_lit(k)}, t[2])
+            return out
+        if t[0] == "rec":
+            out = []
+            for fn, ft in t[2]:
+                out += self.leaves({"e": "fld", "x": e, "f": fn}, ft)
+            return out
+        return [(e, t)]
+
+    def stmt_scast(self):
+        """a value of one aggregate type cast to another one with the same member names: every
+        member is converted on its own and found by its name"""
+        r = self.r
+        src, dst = r.choice(SCASTS)
+        a, b = self.fresh(), self.fresh()
+        ss = [{"s": "let", "n": a, "x": self.lit_of(src), "ty": src, "mut": True}]
+        cast = {"e": "scast", "to": self.tdesc(dst), "tytext": tyname(dst), "x": {"e": "var", "n": a, "ty": src}}
+        ss.append({"s": "let", "n": b, "x": cast, "ty": dst, "mut": True})
+        for e, t in self.leaves({"e": "var", "n": b, "ty": dst}, dst):
+            ss.append({"s": "print", "x": e, "ty": t})
+        if src[0] == "rec" and src in (REC_P, REC_PR, REC_PW, REC_R2, REC_R2S):
+            self.declare(a, src, True)
+        if dst in (REC_P,):
+            self.declare(b, dst, True)
+        return ss
+
     def read_of(self, l):
         """the expression reading place l (built from variables only)"""
         if l["l"] == "var":
@@ -782,7 +839,7 @@ class Gen:
                 continue
             if self.ptr_helpers and not self.noprint and self.r.random() < 0.08:
                 self.budget -= 3
-                ss += self.r.choice([self.stmt_ptr, self.stmt_ptr, self.stmt_slice, self.stmt_holder])()
+                ss += self.r.choice([self.stmt_ptr, self.stmt_ptr, self.stmt_slice, self.stmt_holder, self.stmt_scast])()
                 continue
             ss.append(self.stmt(allow_jump))
         self.scopes.pop()
@@ -958,7 +1015,7 @@ class Gen:
                 continue
             if self.ptr_helpers and not self.noprint and self.r.random() < 0.12:
                 self.budget -= 3
-                ss += self.r.choice([self.stmt_ptr, self.stmt_ptr, self.stmt_slice, self.stmt_holder])()
+                ss += self.r.choice([self.stmt_ptr, self.stmt_ptr, self.stmt_slice, self.stmt_holder, self.stmt_scast])()
                 continue
             ss.append(self.stmt())
         tail = self.expr(ret) if ret is not None else NONE
@@ -1007,6 +1064,9 @@ OPS = {"add": "+", "sub": "-", "mul": "*", "and": "&", "or": "|", "xor": "~", "s
 PRELUDE_TYPES = ("P :: struct { a: i32, b: u8 };\nQ :: struct { p: P, k: i64, f: bool };\n"
                  "E :: enum { A: i32, B: u8, C, D: P };\nDI :: distinct i32;\n"
                  "H :: struct { k: i32, p: ^mut P, o: ?^mut i32 };\n"
+                 "PR :: struct { b: u8, a: i32 };\nPW :: struct { a: i64, b: u16 };\n"
+                 "R2 :: struct { x: i32, y: i32 };\nR2s :: struct { y: i32, x: i32 };\n"
+                 "Q2 :: struct { r: R2, k: i64 };\nQ2s :: struct { k: i32, r: R2s };\n"
                  # a value becomes an error union by implicit conversion (here: at a return)
                  "eu_bi_ok :: (v: i32) -> bool!i32 { v }\neu_bi_err :: (e: bool) -> bool!i32 { e }\n"
                  "eu_pl_ok :: (v: i64) -> P!i64 { v }\neu_pl_err :: (e: P) -> P!i64 { e }\n")
@@ -1092,6 +1152,8 @@ class Render:
             return "%s(%s, %s)" % ("#is_variant" if k == "isvar" else "#unwrap", self.expr(e["x"]), self.vty(e["sty"], e["k"]))
         if k == "try":
             return "%s.try" % self.expr(e["x"])
+        if k == "scast":
+            return "%s.(%s)" % (e["tytext"], self.expr(e["x"]))
         if k == "slice":
             return self.place(e["l"])                # arrays fit into slice types by themselves
         if k == "len":
